@@ -67,4 +67,5 @@ CNext(c, e) ==
          [] e.ev = "pcancel_ret"  -> [c EXCEPT !.cancelRet = TRUE]
          [] e.ev = "obs"          -> CObs(c, e)
          [] e.ev = "panic"        -> Bad("a Pool method panicked")
+         [] e.ev = "hung"         -> Bad("a Pool method never returned although nothing else could move")
 =============================================================================
